@@ -49,6 +49,10 @@ CLAIMED = {
    text="Lock events of every public library entry point are traced through the instrumented DashMap under natural placement and all-keys-in-one-shard; a held-lock re-entrancy involving a writer on the same map is a violation; the observed nesting templates are model-checked (Locks.tla, reader-preferring RwLock, all schedules and placements) for deadlock; ImportWalk.tla proves termination (<>Done under weak fairness) of the memoised import recursion and scanner fixpoint on all graphs over 3 modules, and all 1024 graphs are run on the real code under a watchdog with the result compared to reachability; seeded random schedules of a notification against two request streams on real threads.",
    note="Handlers of the binary crate are covered through the library entry points they call; watchdog 600 s; a crash (stack overflow) of the harness is reported as a violation with the culprit case.",
    technique="lock-trace template extraction + TLA+ lock model (TLC) + TLA+ liveness (ImportWalk) + scheduled real threads"),
+ "C13": dict(level=MC, ref="DESIGN.md section 4 C13",
+   text="Discovery.tla defines PyIndexed (root-relative rules) and the implementation model with its named deviations; TLC checks RepairedRelocationInvariant, FaultIsolation, RepairedEqualsR; one tree holding the full product of directory components x file names (1330 uniquely tagged files) is materialised under 7 root locations x 4 exclude sets x 3 fault modes and scanned by the real library; the indexed set and the third-party classification must equal the specification.",
+   note="<= 2 directory components over 11 representatives, 10 file names; exclude shapes `dir/**`, `**/name.py`; faults: invalid UTF-8, dangling symlinks (no permission faults as root).",
+   technique="TLA+ case table (TLC) + materialised trees scanned by the real library"),
  "C16": dict(level=MC, ref="DESIGN.md section 4 C16",
    text="compute_fixture_cycles is transcribed step by step into TLA+ (explicit-stack DFS, root order) and TLC evaluates it on every dependency graph of the table; the per-definition reference graph (layer R) decides soundness and completeness of every reported cycle and the scope rule; every (graph, registration order) is replayed on the real library with 3 additional fresh databases for run-to-run stability; the model must predict the implementation's exact output.",
    note="<= 3 fixture names over 4 files, all parameter lists, all registration orders of defining files; scope universe: 5 scopes x dependency defined at up to 4 places.",
